@@ -147,6 +147,10 @@ def check_views(P: Any, what: str) -> Optional[tuple[str, str]]:
     return None
 
 
+def _in(x: Any, xs: list) -> bool:
+    return any(x is y for y in xs)
+
+
 def _show(xs: list) -> str:
     return '[' + ', '.join((type(x).__name__ + ':' + repr(O.print_text(x))) if isinstance(x, base.RawModel) else repr(x) for x in xs) + ']'
 
@@ -301,6 +305,29 @@ def _check_map(a: Any, P: Any, rawname: str, raw_before: list, op: dict) -> Opti
         exp = [x for x in raw_before if x is not match] if match is not None else raw_before
         if not same_list(raw_now, exp):
             return (tag, f'{op}: raw list is {_show(raw_now)}, expected the first match removed: {_show(exp)}')
+    elif name == 'popitem':
+        exp = [x for x in raw_before if x is not match]
+        if not same_list(raw_now, exp):
+            return (tag, f'{op}: raw list is {_show(raw_now)}, expected the last item removed: {_show(exp)}')
+        ret = a.ref.get('returned')
+        if not (isinstance(ret, tuple) and len(ret) == 2 and ret[0] == match.key):
+            return (tag + ':returned', f'{op}: returned {ret!r}, expected (key, value) of the last item {match.key!r}')
+    elif name == 'update':
+        pairs = a.ref.get('update_pairs', [])
+        first = {}
+        for k_, v_ in pairs:
+            first.setdefault(k_, v_)
+        w_now = getattr(P, a.prop)
+        for k_, v_ in first.items():
+            try:
+                got = w_now[k_]
+            except KeyError:
+                return (tag + ':missing', f'{op}: key {k_!r} of the other mapping is absent afterwards')
+            if not same(got, v_):
+                return (tag + ':value', f'{op}: [{k_!r}] is {got!r} afterwards, the other mapping has {v_!r}')
+        old_items = [x for x in raw_before if type(x).__name__ == 'MetaItem']
+        if not same_list([x for x in raw_now if _in(x, raw_before)], raw_before) or len(raw_now) != len(raw_before) + len([k_ for k_ in first if k_ not in {x.key for x in old_items}]):
+            return (tag + ':shape', f'{op}: raw list went from {_show(raw_before)} to {_show(raw_now)}; existing entries keep their place and one item per new key is appended')
     elif name == 'setdefault':
         if match is not None and not same_list(raw_now, raw_before):
             return (tag, f'{op}: key present but raw list changed')
@@ -414,6 +441,13 @@ def _enum_meta(maxn: int):
             else:
                 op['donor'] = {'k': 'meta_item', 't': f'{ind}{key}: "new"\n'}
             yield {'dirs': dirs, 'prime': prime_, 'ops': [op, {**op, 'op': 'pop_default'}]}
+        for prop, prime_ in itertools.product(('meta', 'raw_meta'), (True, False)):
+            yield {'dirs': dirs, 'prime': prime_, 'ops': [{'f': 'map', 'cls': cls, 'mi': 0, 'prop': prop, 'op': 'popitem', 'key': 'aa'}] * 2}
+    # update() from another model's mapping: every pair of key layouts of <= 2 items
+    small = [keys for n in range(0, 3) for keys in itertools.product(('aa', 'bb'), repeat=n)]
+    for k1, k2, prime_ in itertools.product(small, small, (True, False)):
+        text = ''.join(f'2000-01-0{d + 1} close Assets:A\n' + ''.join(f'  {k}: {10 * d + i}\n' for i, k in enumerate(ks)) for d, ks in enumerate((k1, k2)))
+        yield {'dirs': [[['X', text]]], 'prime': prime_, 'ops': [{'f': 'map', 'cls': 'Close', 'mi': 0, 'prop': 'meta', 'op': 'update', 'key': 'x', 'sel': 0}]}
 
 
 def jobs(tier: str) -> list[Job]:
